@@ -162,6 +162,7 @@ def run_check(pid, tier, seed, a, scratch, t0):
         print(f'HARNESS-ERROR: no harness for {pid}')
         return 2
     tasks = []
+    accepted_flags = {}
     assumptions = []
     functions = []
     xh_jobs = []
@@ -169,6 +170,7 @@ def run_check(pid, tier, seed, a, scratch, t0):
         mod = core.load_harness(m)
         assumptions += list(getattr(mod, 'ASSUMPTIONS', []))
         functions += list(getattr(mod, 'FUNCTIONS', []))
+        accepted_flags.update(getattr(mod, 'ACCEPTED_FLAGS', {}))
         for case in mod.cases(tier):
             if a.case and a.case not in case['id']:
                 continue
@@ -186,9 +188,9 @@ def run_check(pid, tier, seed, a, scratch, t0):
             for r in pool.imap_unordered(_explore, tasks, chunksize=1):
                 results.append(r)
                 if a.v:
-                    print('  case %-50s paths=%-6d q=%-7d cand=%s exh=%s %.1fs %s' % (
+                    print('  case %-50s paths=%-6d q=%-7d cand=%s exh=%s %.1fs %s %s %s' % (
                         r['case'], r['paths'], r['queries'], r.get('cand_counts'), r['exhausted'],
-                        r.get('wall_s', 0), r['errors'][:1] or ''), flush=True)
+                        r.get('wall_s', 0), (r['errors'][:1] or '') and r['errors'][0][:300], r['flags'] or '', r['aborts'] or ''), flush=True)
 
     xh_results = []
     if xh_jobs:
@@ -260,7 +262,7 @@ def run_check(pid, tier, seed, a, scratch, t0):
     twin = sum(r['twin_reached'] for r in results)
 
     wall = time.time() - t0
-    exhaustive = bool(results or xh_results) and all(r['exhausted'] and not r['unknown'] and not r['flags'] for r in results) \
+    exhaustive = bool(results or xh_results) and all(r['exhausted'] and not r['unknown'] and not (set(r['flags']) - set(accepted_flags)) for r in results) \
         and all(x.get('confirmed') for x in xh_results)
     level = manifest_level(pid)
     samples = []
@@ -292,6 +294,7 @@ def run_check(pid, tier, seed, a, scratch, t0):
         'solver_seconds': round(sum(r['solver_s'] for r in results), 2),
         'solver_unknown': sum(r['unknown'] for r in results),
         'engine_flags': sorted({f for r in results for f in r['flags']}),
+        'engine_flags_accepted': accepted_flags,
         'path_aborts': _sum_dicts(r['aborts'] for r in results),
         'outcome_tags': tags_total,
         'assertions_evaluated': checks_total,
